@@ -159,19 +159,6 @@ Proof.
 Qed.
 
 (* ---------- one state ---------- *)
-Lemma prop_view_weak_ok stable code c :
-  all_infos bounds_inv c -> (stable = true -> jinv c) ->
-  prop_view_weak stable (view code c) = 0.
-Proof.
-  intros Hb Hj. unfold prop_view_weak.
-  rewrite (forallb_views v_bounds_ok) by (intros i Hi; apply v_bounds_ok_view, (Hb i Hi)).
-  rewrite (forallb_views v_once_ok) by (intros i _; apply v_once_ok_view).
-  rewrite (forallb_views v_matchable_def) by (intros i _; apply v_matchable_def_view).
-  cbn [negb]. destruct stable; [|reflexivity].
-  destruct (Hj eq_refl) as [Hs [Hc Hn]].
-  rewrite o_sound_view, o_complete_view, o_visit_ok_view by assumption. reflexivity.
-Qed.
-
 Lemma prop_view_ok stable code c :
   all_infos exact_inv c -> all_infos bounds_inv c -> (stable = true -> jinv c) ->
   prop_view stable (view code c) = 0.
@@ -257,71 +244,38 @@ Qed.
 (* every step code of the model's own trace is 0 *)
 Definition all_zero (l : list Z) : bool := forallb (fun z => z =? 0) l.
 
-Lemma trace_weak_gen : forall hs c st g,
+Lemma bounds_of_exact c : all_infos exact_inv c -> all_infos bounds_inv c.
+Proof.
+  intros H i Hi. destruct (H i Hi) as [Hw He]. split; [exact Hw|].
+  intros k. rewrite (He k). split; [|lia]. rewrite held_unfold. apply held_of_nonneg, Hw.
+Qed.
+
+Lemma trace_full_gen : forall hs c st,
   hist_nonneg hs = true ->
-  all_infos bounds_inv c -> (st = true -> jinv c) ->
-  all_zero (codes step_code_weak hs (flags c st g hs)
+  all_infos exact_inv c -> (st = true -> jinv c) ->
+  all_zero (codes hs (flags c st hs)
                   (map (fun p : Z * cache => view (fst p) (snd p)) (htrace c hs))) = true.
 Proof.
-  induction hs as [|h t IH]; intros c st g Hnn Hb Hj; [reflexivity|].
+  induction hs as [|h t IH]; intros c st Hnn He Hj; [reflexivity|].
   cbn [hist_nonneg forallb] in Hnn. apply andb_true_iff in Hnn. destruct Hnn as [Hh Ht].
   cbn [flags htrace map codes all_zero forallb fst snd].
   set (st' := st && all_along node_stable_op c (lower h)).
-  assert (Hb' : all_infos bounds_inv (hstep c h)).
-  { apply bounds_run; [apply all_along_nonneg, Hh|exact Hb]. }
-  assert (Hj' : st' = true -> jinv (hstep c h)).
-  { unfold st'. intros E. apply andb_true_iff in E. destruct E as [E1 E2].
-    apply jinv_run; [exact E2|apply Hj, E1]. }
-  apply andb_true_iff. split.
-  - unfold step_code_weak. cbn [fst]. rewrite prop_view_weak_ok by assumption.
-    cbn. rewrite claim_ok_view. reflexivity.
-  - apply IH; assumption.
-Qed.
-
-Lemma trace_weak hs :
-  hist_nonneg hs = true ->
-  all_zero (codes step_code_weak hs (flags_of hs) (views_of hs)) = true.
-Proof.
-  intros H. apply trace_weak_gen; [exact H|apply all_infos_init|intros _; apply jinv_init].
-Qed.
-
-(* no update grows the restricted dimensions under assigned pods, along the whole history *)
-Fixpoint hist_no_grow (c : cache) (hs : list hop) : bool :=
-  match hs with
-  | [] => true
-  | h :: t => all_along no_grow_op c (lower h) && hist_no_grow (hstep c h) t
-  end.
-
-Lemma trace_full_gen : forall hs c st g,
-  hist_nonneg hs = true -> hist_no_grow c hs = true ->
-  all_infos exact_inv c -> all_infos bounds_inv c -> (st = true -> jinv c) ->
-  all_zero (codes step_code hs (flags c st g hs)
-                  (map (fun p : Z * cache => view (fst p) (snd p)) (htrace c hs))) = true.
-Proof.
-  induction hs as [|h t IH]; intros c st g Hnn Hg He Hb Hj; [reflexivity|].
-  cbn [hist_nonneg forallb] in Hnn. apply andb_true_iff in Hnn. destruct Hnn as [Hh Ht].
-  cbn [hist_no_grow] in Hg. apply andb_true_iff in Hg. destruct Hg as [Hgh Hgt].
-  cbn [flags htrace map codes all_zero forallb fst snd].
-  set (st' := st && all_along node_stable_op c (lower h)).
-  assert (Hb' : all_infos bounds_inv (hstep c h)).
-  { apply bounds_run; [apply all_along_nonneg, Hh|exact Hb]. }
   assert (He' : all_infos exact_inv (hstep c h)).
-  { apply exact_run; [apply all_along_nonneg, Hh|exact Hgh|exact He]. }
+  { apply exact_run; [apply all_along_nonneg, Hh|exact He]. }
   assert (Hj' : st' = true -> jinv (hstep c h)).
   { unfold st'. intros E. apply andb_true_iff in E. destruct E as [E1 E2].
     apply jinv_run; [exact E2|apply Hj, E1]. }
   apply andb_true_iff. split.
-  - unfold step_code. cbn [fst]. rewrite prop_view_ok by assumption.
+  - unfold step_code. rewrite prop_view_ok; [|exact He'|apply bounds_of_exact, He'|exact Hj'].
     cbn. rewrite claim_ok_view. reflexivity.
   - apply IH; assumption.
 Qed.
 
 Lemma trace_full hs :
-  hist_nonneg hs = true -> hist_no_grow init_cache hs = true ->
-  all_zero (codes step_code hs (flags_of hs) (views_of hs)) = true.
+  hist_nonneg hs = true ->
+  all_zero (codes hs (flags_of hs) (views_of hs)) = true.
 Proof.
-  intros H Hg. apply trace_full_gen; try assumption;
-    [apply all_infos_init|apply all_infos_init|intros _; apply jinv_init].
+  intros H. apply trace_full_gen; [exact H|apply all_infos_init|intros _; apply jinv_init].
 Qed.
 
 Lemma first_nonzero_all_zero l : all_zero l = true -> first_nonzero l = 0.
